@@ -515,6 +515,46 @@ class MethodUnit(Unit):
         pass
 
 
+class FunctionUnit(Unit):
+    """Verify one module-level function (possibly a generator used through @contextmanager) against obligations
+    stated in on_exit.  `yield` is handled by the unit's do_yield hook."""
+
+    modpath = None
+    funcname = None
+
+    def __init__(self):
+        self.name = self.qualname = self.funcname
+        self.functions = ((self.modpath, self.funcname),)
+
+    def make_args(self, ip):
+        return [], {}
+
+    def on_entry(self, ip, pre):
+        pass
+
+    def on_exit(self, ip, pre, exc, ret):
+        pass
+
+    def run(self, ip):
+        from .interp import FuncVal
+
+        st = ip.st
+        args, kwargs = self.make_args(ip)
+        pre = H(st, st.snapshot())
+        self.on_entry(ip, pre)
+        node = extract.module(self.modpath).get(self.funcname)
+        f = FuncVal(node, None, self.modpath, self.funcname)
+        exc, ret = None, None
+        try:
+            env = ip.bind_args(f, args, kwargs)
+            ret = ip.run_body(f, env)
+        except PyExc as e:
+            exc = e.exc
+        kind = "return" if exc is None else f"raise:{exc.pycls.__name__ if exc.pycls else 'sym'}"
+        ip.ctx.cover(f"{self.qualname}/cover:exit[{kind}]")
+        self.on_exit(ip, pre, exc, ret)
+
+
 class LemmaUnit(Unit):
     """A unit with no code: obligations over symbolic states only (environment actions, lemmas)."""
 
